@@ -17,7 +17,7 @@ import (
 const memBudget = 3 << 30
 
 // caseBudget bounds one case (a handful of library calls on small inputs).
-var caseBudget = 10 * time.Second
+var caseBudget = 30 * time.Second
 
 // Ev is one trace event. Every integer must stay below 2^31 and there is no null.
 type Ev map[string]any
